@@ -29,3 +29,17 @@ func Compile() *Expr {
 	mu.RUnlock()
 	return e
 }
+
+func merge(dst *map[string]int, k string, v int) {
+	if *dst == nil {
+		*dst = make(map[string]int)
+	}
+	(*dst)[k] = v
+}
+
+// Put hands the address of the registry to a helper, with the write lock held.
+func Put(k string, v int) {
+	mu.Lock()
+	merge(&registry, k, v)
+	mu.Unlock()
+}
